@@ -478,6 +478,7 @@ theorem eval_wf : ∀ (e : E), E.DvWF e → ∀ v, eval e = .ok v → Val.AllWF 
       simp only [toHexOp, bind, Except.bind, pure, Except.pure] at h
       split at h <;> simp at h
       subst h; simp [Val.AllWF]
+  | .half _, _, v, h => by simp [eval] at h; subst h; simp [Val.AllWF]
   | .sub k e, hd, v, h => by
     simp only [eval] at h
     split at h <;> simp at h
